@@ -148,6 +148,25 @@ struct Cov {
     seen: BTreeMap<&'static str, BTreeSet<String>>,
 }
 
+/// wrapper for codec types without `PartialEq`: equality of the Debug forms
+#[derive(Debug)]
+struct DbgEq<T>(T);
+impl<T: Debug> PartialEq for DbgEq<T> {
+    fn eq(&self, o: &Self) -> bool {
+        format!("{:?}", self.0) == format!("{:?}", o.0)
+    }
+}
+impl<C, T: minicbor::Encode<C>> minicbor::Encode<C> for DbgEq<T> {
+    fn encode<W: minicbor::encode::Write>(&self, e: &mut minicbor::Encoder<W>, ctx: &mut C) -> Result<(), minicbor::encode::Error<W::Error>> {
+        self.0.encode(e, ctx)
+    }
+}
+impl<'b, C, T: minicbor::Decode<'b, C>> minicbor::Decode<'b, C> for DbgEq<T> {
+    fn decode(d: &mut minicbor::Decoder<'b>, ctx: &mut C) -> Result<Self, minicbor::decode::Error> {
+        Ok(DbgEq(T::decode(d, ctx)?))
+    }
+}
+
 struct Runner {
     name: &'static str,
     expected: &'static [&'static str],
@@ -222,9 +241,143 @@ where
                 if bytes.len() > 1 {
                     ctx.nontrivial(fp_mix(fp(name.as_bytes()), fp(&bytes)));
                 }
+                // restyled read: the same data item with some containers flipped definite <-> indefinite
+                // (a form chain data may take). If the decoder accepts it, it must read the same content:
+                // all bytes consumed and the re-encoding equal to the original up to encoding style.
+                if case_seed % 4 == 0 && bytes.len() > 1 {
+                    restyled_read::<T>(ctx, name, &bytes, case_seed);
+                }
                 if ctx.want_sample() && bytes.len() > 8 && bytes.len() < 120 {
                     ctx.sample(json!({"type": name, "value": short(&dbg), "cbor": hexs(&bytes)}));
                 }
+            }
+        }
+    }
+}
+
+fn count_containers(n: &cbor::Node) -> usize {
+    use cbor::Node::*;
+    match n {
+        Array(xs, _) | ArrayIndef(xs) => 1 + xs.iter().map(count_containers).sum::<usize>(),
+        Map(xs, _) | MapIndef(xs) => 1 + xs.iter().map(|(k, v)| count_containers(k) + count_containers(v)).sum::<usize>(),
+        Tag(_, _, x) => count_containers(x),
+        _ => 0,
+    }
+}
+
+/// flips the `target`-th container (pre-order) definite <-> indefinite; returns the descriptor of what was flipped
+fn flip_nth(n: &cbor::Node, counter: &mut usize, target: usize, parent_tag: Option<u64>, descr: &mut Option<String>) -> cbor::Node {
+    use cbor::Node::*;
+    let d = |kind: &str, len: usize, to: &str| {
+        let l = if len >= 3 { "3+".to_string() } else { len.to_string() };
+        match parent_tag {
+            Some(t) => format!("tag{t}>{kind}{l}->{to}"),
+            None => format!("{kind}{l}->{to}"),
+        }
+    };
+    match n {
+        Array(xs, w) => {
+            let me = *counter;
+            *counter += 1;
+            let ys: Vec<_> = xs.iter().map(|x| flip_nth(x, counter, target, None, descr)).collect();
+            if me == target {
+                *descr = Some(d("array", xs.len(), "indef"));
+                ArrayIndef(ys)
+            } else {
+                Array(ys, *w)
+            }
+        }
+        ArrayIndef(xs) => {
+            let me = *counter;
+            *counter += 1;
+            let ys: Vec<_> = xs.iter().map(|x| flip_nth(x, counter, target, None, descr)).collect();
+            if me == target {
+                *descr = Some(d("array", xs.len(), "def"));
+                Array(ys, 0)
+            } else {
+                ArrayIndef(ys)
+            }
+        }
+        Map(xs, w) => {
+            let me = *counter;
+            *counter += 1;
+            let ys: Vec<_> = xs.iter().map(|(k, v)| (flip_nth(k, counter, target, None, descr), flip_nth(v, counter, target, None, descr))).collect();
+            if me == target {
+                *descr = Some(d("map", xs.len(), "indef"));
+                MapIndef(ys)
+            } else {
+                Map(ys, *w)
+            }
+        }
+        MapIndef(xs) => {
+            let me = *counter;
+            *counter += 1;
+            let ys: Vec<_> = xs.iter().map(|(k, v)| (flip_nth(k, counter, target, None, descr), flip_nth(v, counter, target, None, descr))).collect();
+            if me == target {
+                *descr = Some(d("map", xs.len(), "def"));
+                Map(ys, 0)
+            } else {
+                MapIndef(ys)
+            }
+        }
+        Tag(t, w, x) => Tag(*t, *w, Box::new(flip_nth(x, counter, target, Some(*t), descr))),
+        other => other.clone(),
+    }
+}
+
+/// Restyled read: the type's own encoding with ONE container flipped definite <-> indefinite (a form
+/// chain data may take: the ledger's decoders accept both framings for lists and maps). If the decoder
+/// accepts it, it must have read the same content: all bytes consumed and the re-encoding equal to the
+/// original up to encoding style. A refusal is only counted.
+fn restyled_read<T>(ctx: &mut Ctx, name: &'static str, bytes: &[u8], case_seed: u64)
+where
+    T: minicbor::Encode<()> + for<'b> minicbor::Decode<'b, ()> + PartialEq + Debug,
+{
+    let Ok(it) = cbor::parse(bytes) else { return };
+    let node = cbor::to_node(bytes, &it);
+    let n = count_containers(&node);
+    if n == 0 {
+        return;
+    }
+    let mut rng = Rng::derive(case_seed, "c06-restyle", 0);
+    let target = rng.usize_below(n);
+    let mut descr = None;
+    let mut counter = 0;
+    let restyled = flip_nth(&node, &mut counter, target, None, &mut descr);
+    let Some(descr) = descr else { return };
+    let b2 = restyled.to_vec();
+    ctx.count("restyled_reads");
+    // containers directly under a tag are attributed to the tag (the inner type), others to the generated type
+    let owner = if descr.starts_with("tag") { "*" } else { name };
+    let rep = json!({"kind":"restyled","type":name,"case_seed":case_seed,"cbor":hexs(&b2),"flipped":descr});
+    let dec = pv::panics::catch(|| {
+        let mut d = minicbor::Decoder::new(&b2);
+        let r: Result<T, _> = d.decode();
+        (r.map(|v| minicbor::to_vec(&v).map_err(|e| e.to_string())).map_err(|e| e.to_string()), d.position())
+    });
+    match dec {
+        Err(p) => ctx.violation(&format!("panic:decode-restyled:{}", p.site()), &format!("decoding {} ({name} with {descr}) panicked: {}", hex_short(&b2), p.msg), rep),
+        Ok((Err(_), _)) => ctx.count("restyled_rejected"),
+        Ok((Ok(Err(e)), _)) => ctx.violation(&format!("restyled:reencode-error:{owner}:{descr}"), &format!("value decoded from {} cannot be encoded: {e}", hex_short(&b2)), rep),
+        Ok((Ok(Ok(re)), pos)) => {
+            ctx.eval();
+            if pos != b2.len() {
+                ctx.violation(
+                    &format!("restyled:decoder-left-bytes:{owner}:{descr}"),
+                    &format!("{name}: decoder accepted {} ({descr}) but consumed only {pos} of {} bytes (the item is mis-framed: what follows would be read from inside it)", hex_short(&b2), b2.len()),
+                    rep,
+                );
+                return;
+            }
+            let same = match cbor::parse(&re) {
+                Ok(it2) => cbor::canon(&cbor::to_node(&re, &it2)) == cbor::canon(&node),
+                Err(_) => false,
+            };
+            if !same {
+                ctx.violation(&format!("restyled:content-differs:{owner}:{descr}"), &format!("{name}: {} ({descr} of {}) is accepted but re-encodes to {}, a different data item", hex_short(&b2), hex_short(bytes), hex_short(&re)), rep);
+            } else {
+                ctx.count("restyled_same_content");
+                ctx.nontrivial(fp_mix(fp(name.as_bytes()), fp(&b2)));
             }
         }
     }
@@ -376,6 +529,7 @@ fn runners() -> Vec<Runner> {
         runner!("byron::Address", byron::Address, [], |g| g.byron_address()),
         runner!("byron::TxIn", byron::TxIn, ["Variant0", "Other"], |g| g.byron_txin()),
         runner!("byron::TxOut", byron::TxOut, [], |g| g.byron_txout()),
+        runner!("byron::Twit", DbgEq<byron::Twit>, ["PkWitness", "ScriptWitness", "RedeemWitness", "Other"], |g| DbgEq(g.byron_twit())),
         runner!("byron::Tx", byron::Tx, ["Def", "Indef", "Variant0", "Other"], |g| g.byron_tx()),
     ]
 }
